@@ -41,6 +41,7 @@ struct World {
     std::unique_ptr<C3D> c;
     Frame R[2]; bool Rset[2] = {false, false};
     std::string dir;           // scratch directory (tmpfs)
+    bool loadedRoot = false;   // the object came from a generated file (root op), not from the API
     World(const std::string& d) : c(new C3D()), dir(d) {}
     std::string path(const char* leaf) const { return dir + "/" + leaf; }
 };
@@ -48,10 +49,11 @@ struct World {
 struct WSnap {
     OSnap o; FrSnap reg[2]; bool regset[2] = {false, false};
     std::vector<int> alias;    // canonical aliasing partition of all Points/Analogs holders (stored frames, then registers)
+    bool loadedRoot = false;
     std::string text; Key key;
 };
 inline WSnap snapWorld(const World& w) {
-    WSnap s; s.o = snapObject(*w.c);
+    WSnap s; s.o = snapObject(*w.c); s.loadedRoot = w.loadedRoot;
     for (int r = 0; r < 2; ++r) { s.regset[r] = w.Rset[r]; if (w.Rset[r]) s.reg[r] = snapFrame(w.R[r]); }
     std::vector<const void*> ptrs;
     for (auto& f : s.o.frames) { ptrs.push_back(f.paddr); ptrs.push_back(f.aaddr); }
@@ -59,6 +61,7 @@ inline WSnap snapWorld(const World& w) {
     for (size_t i = 0; i < ptrs.size(); ++i) { int cls = (int)i; for (size_t j = 0; j < i; ++j) if (ptrs[j] == ptrs[i]) { cls = (int)j; break; } s.alias.push_back(cls); }
     dumpObject(s.text, s.o);
     for (int r = 0; r < 2; ++r) { s.text += "R"; s.text += char('0' + r); s.text += s.regset[r] ? " " : " -\n"; if (s.regset[r]) dumpFrame(s.text, s.reg[r]); }
+    if (s.loadedRoot) s.text += "root=file\n";
     s.text += "alias=["; for (int a : s.alias) { s.text += std::to_string(a); s.text += ' '; } s.text += "]\n";
     s.key = hashStr(s.text);
     return s;
